@@ -180,7 +180,12 @@ class ConveyorOracle:
             self.aligned = False
         older = [x for x in sh.held.values() if x.put_seq < ir.put_seq and x.status == "never" and x.ready_t is not None or
                  (x.put_seq < ir.put_seq and x.status == "never" and x.ready_t is None)]
-        if older:
+        if older and sh.stats.get("binding_unreadable", 0) and (any(r is not rec for r in sh.grant["get"]) or sh.n_granted_get_cancels):
+            # the store does not expose which item a granted retrieval is bound to (attribute renamed / removed): with other
+            # granted retrievals outstanding, or after a granted retrieval was cancelled, the older item may be / have been
+            # theirs; nothing can be said from the boundary alone
+            self.mon.counters["c12_order_undecidable_binding_unreadable"] += 1
+        elif older:
             self.viol("C12", "order", "item-left-before-an-item-that-entered-earlier" +
                       (":after-two-items-at-exit" if self.overlap_seen_at is not None else ""),
                       {"got": ir.iid, "older_still_on_belt": older[0].iid, "t": now,
